@@ -89,13 +89,13 @@ package smtp
 //@ extern func (*sync/atomic.Int32).Add(x *atomic.Int32, delta int32) int32
 // releaseLimits returns the permit of the current transaction, under the keys it was taken with.
 //@ func (*Session).releaseLimits
-//@   prop C03
+//@   prop C03 C11
 //@   requires s != nil && s.endp != nil && s.endp.limits != nil && gPermit == 1 && txKeysOK(s)
 //@   modifies gPermit
 //@   ensures gPermit == 0
 // cleanSession forgets the delivery: it must have been closed before (an open delivery is never dropped).
 //@ func (*Session).cleanSession
-//@   prop C03
+//@   prop C03 C11
 //@   requires s != nil && s.endp != nil && s.endp.limits != nil && gPermit == 1 && txKeysOK(s)
 //@   requires s.delivery == nil || !gOpen[refOf(s.delivery)]
 //@   modifies s.mailFrom, s.opts, s.msgMeta, s.delivery, s.deliveryErr, s.msgCtx, gPermit
@@ -118,7 +118,7 @@ package smtp
 // startDelivery opens the transaction's delivery and takes its permit; it is only called when the session holds
 // none; on failure nothing is open and no permit is held.
 //@ func (*Session).startDelivery
-//@   prop C03
+//@   prop C03 C11
 //@   modifies *
 //@   requires sInv(s) && s.delivery == nil
 //@   ensures s.endp == old(s.endp) && s.endp.pipeline != nil && s.endp.limits != nil
